@@ -573,3 +573,4 @@ fn c05_add_merge_braid_error() {
     mem::forget(r);
     mem::forget(trx);
 }
+
